@@ -1,4 +1,5 @@
 import PGT.Proofs.FromFlat
+import PGT.Proofs.FromOneof
 /-
 C07 – Oneof groups stay exclusive in both directions.
 Full statement: `Spec.c07FromCheck` / `Spec.c07ToCheck` hold for every result (`C07_full`). Proved: the building
@@ -94,5 +95,176 @@ theorem C07_all_null_message (ov : List (String × String)) (m : Msg) (attrs : L
   refine ⟨{ obj := resetOneOfs m.info.oneOfNames (.struct prior), diags := [], hooks := [] }, ?_, rfl, ?_⟩
   · simp [copyFrom, C07_all_null_group ov m.fields attrs _ h]
   · exact C07_reset _ _ _ hg
+
+-- ====================================================================================================
+-- every message, every Terraform value, every prior content of the target
+
+/-- **C07 (CopyFrom), all branches null or unknown ⇒ the oneof is nil – whatever the target held.** For every message
+(any other fields: scalars, nested messages, lists, maps, other groups, embedded children), every attribute map – also
+malformed ones – and every prior struct: if no branch attribute of group `g` is known and non-null, the holder is nil
+after the call. `GroupOK g f`: `f` is a scalar or message branch of `g`, or its block cannot assign the Go field `g`
+(its name, holder and embedded parent are different Go fields). Proof: frame theorem (`FromFrame.lean`) + branch
+lemma + fold (`FromOneof.lean`). -/
+theorem C07_from_all_null (ov : List (String × String)) (m : Msg) (u n : Bool) (attrs : Option (List (String × TfVal)))
+    (atys : Option (List (String × TfTy))) (prior : List (String × GoVal)) (g : String) (hg : g ∈ m.info.oneOfNames)
+    (hne : g ≠ "") (hok : ∀ f ∈ m.fields, GroupOK g f) (hph : ∀ f ∈ m.fields, f.info.isPlaceholder = false)
+    (hnull : ∀ f ∈ m.fields, f.info.oneOfName = g → ∀ a, (attrs.getD []).lookup f.info.nameSnake = some a → a.isKnown = false)
+    (r : FromResult) (h : copyFrom ov m (.obj u n attrs atys) (.struct prior) = .ok r) :
+    r.obj.field? g = some (.iface none) := by
+  unfold copyFrom at h
+  simp only [] at h
+  cases hf : copyFromFields ov m.fields attrs { obj := resetOneOfs m.info.oneOfNames (.struct prior) } with
+  | ok st' =>
+    rw [hf] at h
+    injection h with h
+    subst h
+    obtain ⟨_, hh⟩ := fromFields_holder ov g hne m.fields attrs _ st' (isStruct_resetOneOfs m.info.oneOfNames (.struct prior) trivial) hok hph hf
+    rcases hh with ⟨heq, _⟩ | ⟨f, hfm, ho, ⟨a, hl, hk⟩, _⟩
+    · simp only [heq]
+      exact C07_reset _ _ _ hg
+    · have := hnull f hfm ho a hl
+      rw [this] at hk
+      cases hk
+  | panic w => rw [hf] at h; cases h
+  | stuck w => rw [hf] at h; cases h
+
+/-- **C07 (CopyFrom), exactly one branch known and non-null ⇒ the oneof holds that branch.** Same generality: if the
+attribute of branch `f0` is known, non-null and of the right Go type and no other branch attribute of the group is
+known, then after the call the holder is the wrapper of `f0` (wrapper type and field name of that branch). -/
+theorem C07_from_one_known (ov : List (String × String)) (m : Msg) (u n : Bool) (attrs : Option (List (String × TfVal)))
+    (atys : Option (List (String × TfTy))) (prior : List (String × GoVal)) (g : String)
+    (hne : g ≠ "") (hok : ∀ f ∈ m.fields, GroupOK g f) (hph : ∀ f ∈ m.fields, f.info.isPlaceholder = false)
+    (f0 : Field) (hf0 : f0 ∈ m.fields) (ho0 : f0.info.oneOfName = g) (hk0 : BranchKnown attrs f0)
+    (hothers : ∀ f ∈ m.fields, f.info.oneOfName = g → f.info.name ≠ f0.info.name ∨ f.info.oneOfType ≠ f0.info.oneOfType →
+      ∀ a, (attrs.getD []).lookup f.info.nameSnake = some a → a.isKnown = false)
+    (r : FromResult) (h : copyFrom ov m (.obj u n attrs atys) (.struct prior) = .ok r) :
+    ∃ t, r.obj.field? g = some (.iface (some (lastSegment f0.info.oneOfType, f0.info.name, t))) := by
+  unfold copyFrom at h
+  simp only [] at h
+  cases hf : copyFromFields ov m.fields attrs { obj := resetOneOfs m.info.oneOfNames (.struct prior) } with
+  | ok st' =>
+    rw [hf] at h
+    injection h with h
+    subst h
+    obtain ⟨_, hh⟩ := fromFields_holder ov g hne m.fields attrs _ st' (isStruct_resetOneOfs m.info.oneOfNames (.struct prior) trivial) hok hph hf
+    rcases hh with ⟨_, hnone⟩ | ⟨f, hfm, ho, ⟨a, hl, hk⟩, t, hset⟩
+    · exact absurd ⟨ho0, hk0⟩ (hnone f0 hf0)
+    · by_cases hsame : f.info.name = f0.info.name ∧ f.info.oneOfType = f0.info.oneOfType
+      · exact ⟨t, by rw [← hsame.1, ← hsame.2]; exact hset⟩
+      · have hd : f.info.name ≠ f0.info.name ∨ f.info.oneOfType ≠ f0.info.oneOfType := by
+          by_cases h1 : f.info.name = f0.info.name
+          · right; intro h2; exact hsame ⟨h1, h2⟩
+          · left; exact h1
+        have := hothers f hfm ho hd a hl
+        rw [this] at hk
+        cases hk
+  | panic w => rw [hf] at h; cases h
+  | stuck w => rw [hf] at h; cases h
+
+/-- non-vacuity: two scalar branches and a plain field; the target holds branch A, the object has only branch B known -/
+def exTf : TfType :=
+  { valueType := "github.com/hashicorp/terraform-plugin-framework/types.String",
+    elemValueType := "github.com/hashicorp/terraform-plugin-framework/types.String",
+    valueCastToType := "string", valueCastFromType := "string", zeroValue := "\"\"" }
+def exA : Field :=
+  { info := { name := "A", nameSnake := "a", kind := .primitive, oneOfName := "Choice", oneOfType := "M_A",
+              protoType := "string", tf := exTf } }
+def exB : Field :=
+  { info := { name := "B", nameSnake := "b", kind := .primitive, oneOfName := "Choice", oneOfType := "M_B",
+              protoType := "string", tf := exTf } }
+def exMsg : Msg := { info := { name := "M", oneOfNames := ["Choice"] }, fields := [exA, exB] }
+
+theorem C07_example_runs :
+    (match copyFrom [] exMsg (.obj false false (some [("a", .prim .string true false (.str [])), ("b", .prim .string false false (.str [120]))]) none)
+        (.struct [("Choice", .iface (some ("M_A", "A", .sc (.str [121]))))]) with
+     | .ok r => (match r.obj.field? "Choice" with | some (.iface (some ("M_B", "B", .sc (.str [120])))) => true | _ => false)
+     | _ => false) = true := by
+  decide
+
+-- ----------------------------------------------------------------------------------------------------
+-- CopyTo: inactive branches are null, the active branch is non-null iff its payload is non-zero
+
+/-- an inactive branch reads as the zero value (`genOneOfStub`: the empty wrapper) -/
+theorem C07_inactive_reads_zero (info : FieldInfo) (obj : GoVal) (ho : info.oneOfName ≠ "")
+    (he : info.parentIsOptionalEmbed = false) (h : activePayload info obj = none) :
+    getVal info obj = zeroGoOf info := by
+  have hob : (info.oneOfName != "") = true := by simpa using ho
+  have hsh : oneOfShadow info obj = .struct [] := by
+    unfold oneOfShadow
+    unfold activePayload at h
+    have hoe : (info.oneOfName == "") = false := by simpa using ho
+    simp only [hoe, Bool.false_eq_true, if_false]
+    cases hf : obj.field? info.oneOfName with
+    | none => rfl
+    | some v =>
+      cases v with
+      | iface o =>
+        cases o with
+        | none => rfl
+        | some t =>
+          obtain ⟨w, fn, payload⟩ := t
+          simp only [hf] at h
+          by_cases hw : (w == lastSegment info.oneOfType) = true
+          · simp [hw] at h
+          · simp [hw]
+      | sc _ => rfl
+      | ptr _ => rfl
+      | struct _ => rfl
+      | slice _ => rfl
+      | map _ => rfl
+  unfold getVal
+  simp only [he, Bool.false_eq_true, if_false, hob, if_true, hsh]
+  simp [GoVal.field?, List.lookup]
+
+/-- in every rendering (the result of CopyTo into an empty object, `C03_total`), a scalar branch attribute is null exactly
+when the value read through the oneof stub is zero; with `C07_inactive_reads_zero`: every inactive branch is null, the
+active branch is non-null iff its payload is non-zero -/
+theorem C07_to_scalar_branch (f : Field) (obj : GoVal) (a : TfVal) (hk : f.info.kind = .primitive)
+    (hph : f.info.isPlaceholder = false) (he : f.info.parentIsOptionalEmbed = false) (hn : f.info.isNullable = false)
+    (hz : f.info.tf.zeroValue ≠ "") (hr : rendersVal f obj a = true) :
+    ∃ s, getVal f.info obj = .sc s ∧ isNull a = scIsZero s := by
+  obtain ⟨info, mv, msg, sub⟩ := f
+  simp only at hk hph he hn hz
+  unfold rendersVal at hr
+  simp only [hk, hph, he, Bool.false_and, Bool.false_eq_true, if_false] at hr
+  unfold primRenders at hr
+  cases a with
+  | prim k u n p =>
+    simp only [hn, Bool.false_eq_true, if_false, Bool.and_eq_true] at hr
+    cases hx : getVal info obj with
+    | sc s =>
+      simp only [hx] at hr
+      have hzv : (info.tf.zeroValue != "") = true := by simpa using hz
+      simp only [hzv, if_true, Bool.and_eq_true, beq_iff_eq] at hr
+      exact ⟨s, rfl, by simp [isNull, hr.2.2]⟩
+    | ptr _ => simp [hx] at hr
+    | struct _ => simp [hx] at hr
+    | slice _ => simp [hx] at hr
+    | map _ => simp [hx] at hr
+    | iface _ => simp [hx] at hr
+  | list _ _ _ _ => simp at hr
+  | map _ _ _ _ => simp at hr
+  | obj _ _ _ _ => simp at hr
+  | nilv => simp at hr
+  | foreign _ => simp at hr
+
+/-- … and a message branch attribute is null exactly when the branch pointer read through the stub is nil -/
+theorem C07_to_message_branch (f : Field) (obj : GoVal) (a : TfVal) (hk : f.info.kind = .object)
+    (hn : f.info.isNullable = true) (hr : rendersVal f obj a = true) :
+    isNull a = isNilPtr (getVal f.info obj) := by
+  obtain ⟨info, mv, msg, sub⟩ := f
+  simp only at hk hn
+  unfold rendersVal at hr
+  simp only [hk] at hr
+  unfold objRenders at hr
+  cases a with
+  | obj u n as atys =>
+    simp only [hn, if_true, Bool.and_eq_true, beq_iff_eq] at hr
+    simp [isNull, hr.2.1]
+  | prim _ _ _ _ => simp at hr
+  | list _ _ _ _ => simp at hr
+  | map _ _ _ _ => simp at hr
+  | nilv => simp at hr
+  | foreign _ => simp at hr
 
 end PGT.Props.C07
